@@ -1162,16 +1162,6 @@ def _customize_tokens(tokens):
         customized = _customize_token(token)
         result.append(customized)
 
-        if str(customized) == "Posts" and str(tokens[token_index - 1]) == 'Other' and str(tokens[token_index - 2]) == 'and': # and str(tokens[token_index - 3]) == 'posts':
-            logger.debug(f'SPECIAL TAG!\n  pre: {token.pre_tags}\n  token: "{token}"\n  post: {token.post_tags}')
-            for tag_index, tag in enumerate(customized.post_tags):
-                if tag.startswith('</ul>'):
-                    new_token = SpacerToken(SPACER_STRING)
-                    result.append(new_token)
-                    new_token = SpacerToken(SPACER_STRING, pre_tags=customized.post_tags[tag_index:])
-                    result.append(new_token)
-                    customized.post_tags = customized.post_tags[:tag_index]
-
         # if isinstance(customized, ImgTagToken):
         #     result.append(SpacerToken(SPACER_STRING))
         #     result.append(SpacerToken(SPACER_STRING))
